@@ -104,7 +104,9 @@ def _finish(name: str, bound: tuple[Any, ...], ctl: dict[str, Any]) -> Any:
     ctl["probe"] = _probe()
     if ctl.get("block") is not None:
         ctl["block"]["entered"].set()
-        ctl["block"]["release"].wait(10)
+        if threading.get_ident() != ctl["block"].get("loop_thread"):
+            ctl["block"]["release"].wait(10)
+        # on the loop thread itself waiting could only time out (the releasing heartbeat cannot run): the thread probe reports it
     if ctl.get("leak"):
         _leak()
     if ctl.get("log"):
@@ -313,7 +315,7 @@ async def one_call(C: Ctx, case: dict[str, Any]) -> None:
         beats = {"n": 0}
         blocker = None
         if block and deco.startswith("asynchronous"):
-            blocker = {"entered": threading.Event(), "release": threading.Event()}
+            blocker = {"entered": threading.Event(), "release": threading.Event(), "loop_thread": C.loop_thread}
             ctl["block"] = blocker
 
             async def heartbeat() -> None:
